@@ -410,6 +410,18 @@ def r5(ctx):
     p, hits = guard_check(f, sel, cap)
     ctx.check("C13.R5", p is None, key(f, "capacity-gate"), site(f, sel[0]), "the poller (whose callbacks accept new connections) is polled without `nr_conns < worker_connections`: more connections than configured can be open",
               "select only below capacity", path=p and g.fmt_path(p))
+    # the poller holds the client sockets too (parked keep-alive connections, accepted connections waiting for their first
+    # byte): skipping the poll at the limit stops watching *them* -- a request that arrives on a parked connection is not
+    # served although a thread is free, an EOF is not seen, so nr_conns never comes down again (clients that connect and
+    # leave wedge the worker for good while it keeps beating)
+    loopw = [w_ for w_ in walk_own(f.node) if isinstance(w_, ast.While) and "alive" in norm(w_.test)]
+    if loopw:
+        head_ = [x for x in g.nodes_of(loopw[0]) if x.kind == "join"][0]
+        body_edges_ = [(t, "true") for t in g.tests() if t.stmt is loopw[0]]
+        r_ = g.reachable(body_edges_, without_nodes=sel, follow_exc=False, stop=lambda x: x is head_)
+        ctx.check("C13.R5", head_ not in r_, key(f, "clients-watched-at-the-limit"), site(f, sel[0]),
+                  "with nr_conns at worker_connections an iteration of run() skips poller.select() altogether: the poller also holds every client socket, so requests arriving on parked keep-alive "
+                  "connections are not served (threads idle) and closed connections are not noticed -- nr_conns stays at the limit, the worker serves nobody and still beats", "client sockets polled on every iteration (only the listeners are masked at the limit)")
     only = all(tail(c.func.value) != "poller" or c in [x for x in method_calls(f, "select")] for ff in repo.cls(TW).methods.values() for c in method_calls(ff, "select") if ff is f)
     others = [(ff, c) for ff in repo.cls(TW).methods.values() if ff is not f for c in method_calls(ff, "select") if tail(c.func.value) == "poller"]
     ctx.check("C13.R5", not others, key(f, "single-poll-site"), site(f), "the poller is polled outside run()", "single poll site")
